@@ -44,7 +44,7 @@ func reqClass(q reqIn, code uint64) string {
 
 // rarest features first; a case is labelled by its two rarest features
 var featureOrder = []string{
-	"k1", "stress", "snap-error", "snap-outofdate", "snap-resave", "save-error", "malformed", "mode2", "overwrite", "snap-compact",
+	"k1", "snap-short", "k1-converging", "stress", "snap-error", "snap-outofdate", "snap-resave", "save-error", "malformed", "mode2", "overwrite", "snap-compact",
 	"mode1", "confchange", "group", "snap-install", "reopen", "entries-limited", "snap", "term", "entries", "mark", "cfg", "save",
 }
 
@@ -186,7 +186,10 @@ func (s *shadow) genSave(r *rand.Rand, sc int, feat map[string]bool, willCommit 
 		return q
 	}
 	x := r.IntN(1000)
-	if x >= 880 && x < 970 {
+	switch {
+	case x >= 880 && x < 940:
+		x = 2000 // snapshot strictly inside the log + a shorter new suffix, in ONE save
+	case x >= 940 && x < 970:
 		x = 0 // keep the malformed stream at 3% of the saves
 	}
 	switch {
@@ -322,6 +325,44 @@ func (s *shadow) genSave(r *rand.Rand, sc int, feat map[string]bool, willCommit 
 			break
 		}
 		q.Sn = &snapIn{I: 1 + uint64(r.IntN(int(w.snapIdx-1))), T: 1, V: randVoters(r), D: randData(r)}
+	case x == 2000: // one Ready with a snapshot strictly inside the log AND fewer entries than the suffix it leaves
+		if w.last() < w.snapIdx+3 {
+			// not enough log yet: grow it
+			q.E = w.mkEntries(r, w.last()+1, 3, w.term, false)
+			w.applyEntries(q.E)
+			break
+		}
+		lo := w.snapIdx + 1
+		if w.commit > lo && w.commit <= w.last()-2 {
+			lo = w.commit
+		}
+		i := lo + uint64(r.IntN(int(w.last()-2-lo)+1))
+		t := w.termAt(i)
+		if vh.Chance(r, 0.4) {
+			t++ // the local log diverged (K1 signature; the following entries make the outcome agree)
+			feat["k1-converging"] = true
+		}
+		retained := int(w.last() - i)
+		k := 1 + r.IntN(retained-1)
+		w.term++
+		if w.term < t {
+			w.term = t
+		}
+		q.Sn = &snapIn{I: i, T: t, V: randVoters(r), D: randData(r)}
+		q.E = w.mkEntries(r, i+1, k, w.term, false)
+		w.terms = nil
+		w.snapIdx, w.snapTerm, w.snapV, w.snapD = i, t, q.Sn.V, q.Sn.D
+		w.applyEntries(q.E)
+		if w.commit < i {
+			w.commit = i
+		}
+		if w.commit > w.last() {
+			w.commit = w.last()
+		}
+		feat["snap-short"] = true
+		if vh.Chance(r, 0.7) {
+			q.HS = w.hs(r, i)
+		}
 	default: // malformed: outside what Raft hands to a storage
 		feat["malformed"] = true
 		w.dead = true
@@ -430,6 +471,7 @@ func gen(r *rand.Rand, tier string, i int) input {
 			}
 			perm := r.Perm(nScopes)
 			feat := map[string]bool{}
+			shortSc := -1
 			var reqs []reqIn
 			haveSnap := false
 			for _, sc := range perm[:k] {
@@ -448,6 +490,9 @@ func gen(r *rand.Rand, tier string, i int) input {
 					sh[sc] = saved
 					q = reqIn{S: sc, K: "mark", X: sh[sc].applied}
 				}
+				if feat["snap-short"] && shortSc < 0 {
+					shortSc = sc
+				}
 				reqs = append(reqs, q)
 			}
 			var fs []string
@@ -456,6 +501,24 @@ func gen(r *rand.Rand, tier string, i int) input {
 			}
 			sort.Strings(fs)
 			ops = append(ops, opIn{Op: "write", Mode: mode, Reqs: reqs, F: fs})
+			if shortSc >= 0 && mode == 0 {
+				// look past LastIndex, reopen, append, look again
+				z := &sh[shortSc]
+				ops = append(ops,
+					opIn{Op: "term", S: shortSc, I: z.last() + 1 + uint64(r.IntN(2))},
+					opIn{Op: "entries", S: shortSc, Lo: z.snapIdx + 1, Hi: z.last() + 2 + uint64(r.IntN(4))})
+				if vh.Chance(r, 0.7) {
+					ops = append(ops, opIn{Op: "reopen"})
+				}
+				if !z.dead {
+					e := z.mkEntries(r, z.last()+1, 1+r.IntN(2), z.term, false)
+					z.applyEntries(e)
+					ops = append(ops,
+						opIn{Op: "write", Reqs: []reqIn{{S: shortSc, K: "save", E: e}}},
+						opIn{Op: "term", S: shortSc, I: z.last() + 1},
+						opIn{Op: "entries", S: shortSc, Lo: z.snapIdx + 1, Hi: z.last() + 3})
+				}
+			}
 		case x < 72 && !stressed && vh.Chance(r, 0.5):
 			// concurrent free-running writers of the three scopes
 			stressed = true
